@@ -12,14 +12,22 @@
 -/
 import DDProofs.DddmpProofs
 import DDProofs.DddmpHeader
+import DDProofs.DddmpFormat
+import DDProofs.DddmpDecide
 import DDProofs.FindOrAdd
+import DDProofs.Reach
+import DDProofs.SwapDrivers
 namespace DD
 
 /-- the specification of `find_or_add` assumed by `DDProofs/DddmpProofs.lean` holds -/
 theorem foaSpec : FoaSpec :=
   ⟨fun m i v w hI hi hv hw hlv hlw => by
     obtain ⟨r, m', he, hp⟩ := findOrAddCore_spec m hI i v w hi hv hw hlv hlw
-    exact ⟨r, m', he, hp.inv, hp.ext, hp.mem, hp.lvl, hp.den⟩⟩
+    exact ⟨r, m', he, hp.inv, hp.ext, hp.mem, hp.lvl, hp.den⟩,
+   fun m i v w hI hi hv hw hlv hlw => by
+    obtain ⟨r, m', he, hp⟩ := findOrAddCore_spec m hI i v w hi hv hw hlv hlw
+    rw [he]
+    exact ⟨hp.frame, hp.fire, hp.cacheSame⟩⟩
 
 /-- a small file whose numbering differs from the order in which the loader recreates the
 nodes (the minimal reproduction of finding F1, since repaired): two roots `a` and `¬ b`,
@@ -55,23 +63,65 @@ theorem dddmpWitness_wf : dddmpWitness.WF := by
     · exact ⟨⟨2, .num 0, 0, 1, -1⟩, by simp [dddmpWitness], rfl⟩
     · exact ⟨⟨3, .num 1, 1, 1, -1⟩, by simp [dddmpWitness], rfl⟩
 
+/-- non-trivial example files (one per mode): three support variables `x, y, z` written at the
+levels 2, 5, 0 of a manager with 6 variables (so the order `z < x < y` differs from the
+listing `x, y, z`, and `.permids` has gaps), indices `.ids = 4 7 1`; nodes
+`3 = y`, `4 = x ∨ ¬y` (a COMPLEMENTED else-edge to node 3), `2 = if z then [4] else [3]`,
+listed parent first and numbered against the order in which the loader rebuilds them;
+roots `2` and `-4` (a complemented root).  `lx ly lz` are the labels of the three
+variables in the mode `vi`; `ov` the optional `.orderedvarnames`. -/
+def dddmpExWith (vi : Int) (ov : Option (List Tok)) (lx ly lz : Tok) : DddmpFile := {
+  varinfo := some vi, nnodes := some 4, nvars := some 6, nsuppvars := some 3,
+  suppvarnames := some [.str "x", .str "y", .str "z"], orderedvarnames := ov,
+  ids := some [4, 7, 1], permids := some [2, 5, 0], nroots := some 2, rootids := some [2, -4],
+  nodes := [⟨2, lz, 2, 4, 3⟩, ⟨1, .str "T", 1, 0, 0⟩, ⟨4, lx, 0, 1, -3⟩, ⟨3, ly, 1, 1, -1⟩] }
+
+/-- the six variables of the writer, by level -/
+def dddmpExOv : List Tok := [.str "z", .str "w", .str "x", .str "q", .str "r", .str "y"]
+
+/-- `.varinfo 0`, names from `.suppvarnames` -/
+def dddmpChain : DddmpFile := dddmpExWith 0 none (.num 4) (.num 7) (.num 1)
+def dddmpEx1s : DddmpFile := dddmpExWith 1 none (.num 2) (.num 5) (.num 0)
+def dddmpEx0o : DddmpFile := dddmpExWith 0 (some dddmpExOv) (.num 4) (.num 7) (.num 1)
+def dddmpEx1o : DddmpFile := dddmpExWith 1 (some dddmpExOv) (.num 2) (.num 5) (.num 0)
+def dddmpEx3 : DddmpFile := dddmpExWith 3 (some dddmpExOv) (.str "x") (.str "y") (.str "z")
+
+theorem dddmpChain_wf : dddmpChain.WF := by decide
+theorem dddmpChain_headerOK : DddmpHeaderOK dddmpChain := by decide
+
 /-- C16: for a well-formed file — whatever numbering it uses for its nodes, with or without
 gaps in the levels, for each of the variable-identification modes 0, 1, 3 —
 `dd.dddmp.load` succeeds, the manager satisfies the invariant (hence is canonical, C02),
 the loader's map sends every node number of the file to a reference that denotes, by
 variable name, what the node list says, and the returned `roots` denote (as a set of
-functions — `bdd.roots` is a `set`) exactly the root entries of the file -/
+functions — `bdd.roots` is a `set`) exactly the root entries of the file.
+
+The returned manager is a state every other property theorem starts from:
+`GoodState m (fun _ => 0)` = `Inv` + `OrderOK` (name maps inverse bijections onto `0..n-1`) +
+`RefExact` for the EMPTY ledger (the loader takes no reference, not even on the roots:
+`find_or_add` counts stored edges only, and `bdd.roots` is a plain set) + dynamic
+reordering not enabled + outside a reordering context; no recorded schedule; every root is a
+node.  `dd.dddmp.load(fname)` always builds a NEW manager (`_bdd.BDD(new_levels)`): there is
+no receiving manager, and a refused file (exception) returns nothing. -/
 theorem C16_load_spec (f : DddmpFile) (hf : f.WF) :
     ∃ m umap, loadDddmpU f = .ok (m, umap) ∧ loadDddmp f = .ok m ∧ Inv m ∧
       (∀ x ∈ f.nodes, ∃ r, dictGet umap x.u = some r ∧ m.tbl.Mem r ∧
         ∀ α, den m.tbl r (asgOf m.tbl α) = evalFile f α x.u) ∧
-      DddmpRootsDenote f m :=
-  dddmpLoad_spec_of_foaSpec foaSpec f hf
+      DddmpRootsDenote f m ∧
+      GoodState m (fun _ => 0) ∧ m.sched = [] ∧ (∀ r ∈ m.roots, m.tbl.Mem r) := by
+  obtain ⟨m, umap, h1, h2, h3, h4, h5, h6, h7⟩ := dddmpLoad_good_of_foaSpec foaSpec f hf
+  obtain ⟨i2p, levels, roots, _, hh, _⟩ := id hf
+  have hL := h6 i2p levels roots hh
+  exact ⟨m, umap, h1, h2, h3, h4, h5, ⟨h3, hL.order, hL.exact, hL.off, hL.ctx⟩, hL.sched, h7⟩
+
+example : ∃ m umap, loadDddmpU dddmpChain = .ok (m, umap) ∧ GoodState m (fun _ => 0) := by
+  obtain ⟨m, umap, h, -, -, -, -, hg, -⟩ := C16_load_spec dddmpChain dddmpChain_wf
+  exact ⟨m, umap, h, hg⟩
 
 /-- C16, the roots clause alone -/
 theorem C16_roots (f : DddmpFile) (hf : f.WF) :
     ∃ m, loadDddmp f = .ok m ∧ Inv m ∧ DddmpRootsDenote f m := by
-  obtain ⟨m, _, _, h, hi, _, hr⟩ := C16_load_spec f hf
+  obtain ⟨m, _, _, h, hi, _, hr, _⟩ := C16_load_spec f hf
   exact ⟨m, h, hi, hr⟩
 
 /-- C16, canonicity of the loaded manager spelled out: two references of the returned
@@ -81,6 +131,372 @@ theorem C16_canonical (f : DddmpFile) (hf : f.WF) :
       ((∀ a, den m.tbl u a = den m.tbl v a) ↔ u = v) := by
   obtain ⟨m, h, hi, _⟩ := C16_roots f hf
   exact ⟨m, h, fun u v hu hv => canonical m.tbl hi.wf u v hu hv⟩
+
+/-! ### the loaded manager is a reachable state (chaining) -/
+
+/-- C16 (chaining): the manager returned for a well-formed file satisfies the full
+reachable-state invariant `GoodState` with the empty ledger, nothing else is set (no schedule,
+trigger counter, computed table), every root is a node, the roots denote the file's root
+entries, and the ORDER is the file's: one variable per entry of the header's `levels`
+table, the variable of file level `k` at the rank of `k` (`DddmpLoaded.rank`; by mode:
+`C16_order_ordered`, `C16_order_supp`) -/
+theorem C16_load_good (f : DddmpFile) (hf : f.WF) :
+    ∃ m, loadDddmp f = .ok m ∧ GoodState m (fun _ => 0) ∧ m.sched = [] ∧ m.fireIn = none ∧
+      m.cache = {} ∧ (∀ r ∈ m.roots, m.tbl.Mem r) ∧ DddmpRootsDenote f m ∧
+      ∀ i2p levels roots, dddmpHeader f = .ok (i2p, levels, roots) → DddmpLoaded levels m := by
+  obtain ⟨m, umap, _, h2, h3, _, h5, h6, h7⟩ := dddmpLoad_good_of_foaSpec foaSpec f hf
+  obtain ⟨i2p, levels, roots, _, hh, _⟩ := id hf
+  have hL := h6 i2p levels roots hh
+  exact ⟨m, h2, ⟨h3, hL.order, hL.exact, hL.off, hL.ctx⟩, hL.sched, hL.fire, hL.cache, h7, h5, h6⟩
+
+example : ∃ m, loadDddmp dddmpChain = .ok m ∧ GoodState m (fun _ => 0) := by
+  obtain ⟨m, h, hg, -⟩ := C16_load_good dddmpChain dddmpChain_wf
+  exact ⟨m, h, hg⟩
+
+/-- the file's variables keep the relative order of their levels in the file (with
+`OrderOK` and `nvars = levels.length` this determines the order of the loaded manager) -/
+theorem C16_order_kept (f : DddmpFile) (hf : f.WF) :
+    ∃ m, loadDddmp f = .ok m ∧ ∀ i2p levels roots, dddmpHeader f = .ok (i2p, levels, roots) →
+      m.nvars = levels.length ∧
+      (∀ var k, (var, k) ∈ levels → m.tbl.vars.contains var.show = true) ∧
+      ∀ var k var' k' (i i' : Nat), (var, k) ∈ levels → (var', k') ∈ levels →
+        m.tbl.vars[var.show]? = some i → m.tbl.vars[var'.show]? = some i' → k < k' → i < i' := by
+  obtain ⟨m, h, -, -, -, -, -, -, hL⟩ := C16_load_good f hf
+  refine ⟨m, h, fun i2p levels roots hh => ⟨(hL _ _ _ hh).nvars, ?_, ?_⟩⟩
+  · intro var k hm
+    obtain ⟨i, -, -, hv⟩ := (hL _ _ _ hh).rank var k hm
+    rw [Std.TreeMap.contains_eq_isSome_getElem?, hv]; rfl
+  · intro var k var' k' i i' hm hm' hi hi' hlt
+    exact (hL _ _ _ hh).mono hm hm' hi hi' hlt
+
+example : dddmpChain.WF := dddmpChain_wf
+
+/-- with `.orderedvarnames` (distinct names): the order of the loaded manager IS that list -/
+theorem C16_order_ordered (f : DddmpFile) (hf : f.WF) (hH : DddmpHeaderOK f) {ov : List Tok}
+    (ho : f.orderedvarnames = some ov) :
+    ∃ m, loadDddmp f = .ok m ∧ m.nvars = ov.length ∧ ∀ (k : Nat) (var : Tok), ov[k]? = some var →
+      m.tbl.vars[var.show]? = some k ∧ m.tbl.l2v[k]? = some var.show := by
+  obtain ⟨m, h, -, -, -, -, -, -, hL⟩ := C16_load_good f hf
+  obtain ⟨i2p, levels, roots, _, hh, _⟩ := id hf
+  exact ⟨m, h, (hL _ _ _ hh).of_ordered hh hH ho⟩
+
+example : dddmpEx0o.WF ∧ DddmpHeaderOK dddmpEx0o ∧ dddmpEx0o.orderedvarnames = some dddmpExOv := by
+  decide
+
+/-- without `.orderedvarnames`: `suppvarnames[j]` sits at the rank of `permids[j]` among the
+`.permids` — gaps closed, relative order kept -/
+theorem C16_order_supp (f : DddmpFile) (hf : f.WF) (hH : DddmpHeaderOK f)
+    (hv3 : f.varinfo ≠ some 3) (ho : f.orderedvarnames = none) {sv : List Tok}
+    (hs : f.suppvarnames = some sv) {permids : List Int} (hp : f.permids = some permids) :
+    ∃ m, loadDddmp f = .ok m ∧ m.nvars = permids.length ∧
+      ∀ (j : Nat) (var : Tok) (k : Int), sv[j]? = some var → permids[j]? = some k →
+        ∃ i : Nat, (sortInts permids)[i]? = some k ∧ m.tbl.vars[var.show]? = some i ∧
+          m.tbl.l2v[i]? = some var.show := by
+  obtain ⟨m, h, -, -, -, -, -, -, hL⟩ := C16_load_good f hf
+  obtain ⟨i2p, levels, roots, _, hh, _⟩ := id hf
+  exact ⟨m, h, (hL _ _ _ hh).of_supp hh hH hv3 ho hs hp⟩
+
+/-- on the example: `z` (file level 0) gets level 0, `x` (2) level 1, `y` (5) level 2 -/
+example : ∃ m, loadDddmp dddmpChain = .ok m ∧ m.nvars = 3 ∧ m.tbl.vars["z"]? = some 0 ∧
+    m.tbl.vars["x"]? = some 1 ∧ m.tbl.vars["y"]? = some 2 := by
+  obtain ⟨m, h, hn, hr⟩ := C16_order_supp dddmpChain dddmpChain_wf dddmpChain_headerOK (by decide)
+    rfl (sv := [.str "x", .str "y", .str "z"]) rfl (permids := [2, 5, 0]) rfl
+  refine ⟨m, h, hn, ?_, ?_, ?_⟩
+  · obtain ⟨i, hi, hv, -⟩ := hr 2 (.str "z") 0 rfl rfl
+    have : i = 0 := by
+      have hs : sortInts [2, 5, 0] = [0, 2, 5] := by decide
+      rw [hs] at hi
+      rcases i with _ | _ | _ | i <;> simp_all
+    subst this; exact hv
+  · obtain ⟨i, hi, hv, -⟩ := hr 0 (.str "x") 2 rfl rfl
+    have : i = 1 := by
+      have hs : sortInts [2, 5, 0] = [0, 2, 5] := by decide
+      rw [hs] at hi
+      rcases i with _ | _ | _ | i <;> simp_all
+    subst this; exact hv
+  · obtain ⟨i, hi, hv, -⟩ := hr 1 (.str "y") 5 rfl rfl
+    have : i = 2 := by
+      have hs : sortInts [2, 5, 0] = [0, 2, 5] := by decide
+      rw [hs] at hi
+      rcases i with _ | _ | _ | i <;> simp_all
+    subst this; exact hv
+
+/-- C16 (chaining, every history): after a successful load EVERY guarded history of user
+operations (`UOp`: declarations, connectives, substitutions, quantification, `incref` /
+`decref`, collections — any arguments, accepted or rejected) leads to a good state again:
+the every-history theorems (`run_inv`, `run_held`, …) restart from the loaded manager -/
+theorem C16_then_every_history (f : DddmpFile) (hf : f.WF) :
+    ∃ m, loadDddmp f = .ok m ∧ ∀ ops : List UOp, OpsGuarded ops ⟨m, fun _ => 0⟩ →
+      GoodState (run ops ⟨m, fun _ => 0⟩).m (run ops ⟨m, fun _ => 0⟩).ext := by
+  obtain ⟨m, h, hg, -⟩ := C16_load_good f hf
+  exact ⟨m, h, fun ops hops => run_inv ops ⟨m, fun _ => 0⟩ hg hops⟩
+
+/-- non-vacuity: a guarded history on the loaded example (a declaration, a rejected call, a
+connective on numbers that are nodes there, a collection) -/
+example : ∃ m, loadDddmp dddmpChain = .ok m ∧
+    GoodState (run [.declare "w" none, .ite 99 1 1, .apply "and" 4 (some (-3)) none, .collectGarbage]
+      ⟨m, fun _ => 0⟩).m
+      (run [.declare "w" none, .ite 99 1 1, .apply "and" 4 (some (-3)) none, .collectGarbage]
+        ⟨m, fun _ => 0⟩).ext := by
+  obtain ⟨m, h, hr⟩ := C16_then_every_history dddmpChain dddmpChain_wf
+  exact ⟨m, h, hr _ ⟨trivial, trivial, trivial, trivial, trivial⟩⟩
+
+/-- the user's `incref` of every element of a list -/
+def holdOps (rs : List Int) : List UOp := rs.map .incref
+
+theorem holdOps_guarded : ∀ (rs : List Int) (s : St), OpsGuarded (holdOps rs) s
+  | [], _ => trivial
+  | _ :: rs, s => ⟨trivial, holdOps_guarded rs _⟩
+
+theorem run_holdOps : ∀ (rs : List Int) (s : St), GoodState s.m s.ext →
+    (∀ r ∈ rs, s.m.tbl.Mem r) →
+    GoodState (run (holdOps rs) s).m (run (holdOps rs) s).ext ∧
+      (run (holdOps rs) s).m.tbl = s.m.tbl ∧ (run (holdOps rs) s).m.roots = s.m.roots ∧
+      (run (holdOps rs) s).m.sched = s.m.sched ∧
+      (∀ u, s.ext u ≤ (run (holdOps rs) s).ext u) ∧
+      (∀ r ∈ rs, 0 < (run (holdOps rs) s).ext r.natAbs) := by
+  intro rs
+  induction rs with
+  | nil => intro s h _; exact ⟨h, rfl, rfl, rfl, fun _ => Nat.le_refl _, fun _ hr => by cases hr⟩
+  | cons r rs ih =>
+    intro s h hm
+    have hr : s.m.tbl.Mem r := hm r List.mem_cons_self
+    obtain ⟨c, -, he, -⟩ := incref_spec s.m s.ext r h.exact hr
+    have hmem : s.m.mem r = true := (Mgr.mem_iff s.m r).mpr hr
+    have hs1 : step (.incref r) s =
+        ⟨{ s.m with ref := s.m.ref.insert r.natAbs (c + 1) }, extInc s.ext r.natAbs⟩ := by
+      simp only [step, runOp, mapRes, he, ledger, hmem, if_true]
+    have hg1 : GoodState (step (.incref r) s).m (step (.incref r) s).ext :=
+      step_inv s.m s.ext (.incref r) h trivial
+    obtain ⟨g, ht, hro, hsc, hle, hpos⟩ := ih (step (.incref r) s) hg1 (by
+      intro r' hr'
+      rw [hs1]
+      exact hm r' (List.mem_cons_of_mem _ hr'))
+    have hle1 : ∀ u, s.ext u ≤ (step (.incref r) s).ext u := by
+      intro u; rw [hs1]; simp only [extInc]; split <;> omega
+    refine ⟨g, ?_, ?_, ?_, fun u => Nat.le_trans (hle1 u) (hle u), ?_⟩
+    · show (run (holdOps rs) (step (.incref r) s)).m.tbl = _
+      rw [ht, hs1]
+    · show (run (holdOps rs) (step (.incref r) s)).m.roots = _
+      rw [hro, hs1]
+    · show (run (holdOps rs) (step (.incref r) s)).m.sched = _
+      rw [hsc, hs1]
+    · intro r' hr'
+      rcases List.mem_cons.mp hr' with rfl | hr'
+      · have : 0 < (step (.incref r') s).ext r'.natAbs := by
+          rw [hs1]; simp [extInc]
+        exact Nat.lt_of_lt_of_le this (hle _)
+      · exact hpos r' hr'
+
+/-- C16 (chaining with the reordering theorems): the loader takes no reference on the roots;
+once the user has taken one on each (`incref`, as the class documentation asks), the state
+satisfies `ReorderInv` — the hypothesis of the C07 theorems on `swap` / sifting /
+`reorder` and of `bdd_to_mdd` (C15) — for the ledger that counts these references, and the
+node table, hence every denotation, is the loaded one -/
+theorem C16_hold_roots (f : DddmpFile) (hf : f.WF) :
+    ∃ m, loadDddmp f = .ok m ∧
+      let s := run (holdOps m.roots) ⟨m, fun _ => 0⟩
+      GoodState s.m s.ext ∧ ReorderInv s.ext s.m ∧ s.m.tbl = m.tbl ∧ s.m.roots = m.roots ∧
+        s.m.sched = [] ∧ ∀ r ∈ m.roots, 0 < s.ext r.natAbs := by
+  obtain ⟨m, h, hg, hsch, -, -, hmem, -⟩ := C16_load_good f hf
+  obtain ⟨g, ht, hro, hsc, -, hpos⟩ := run_holdOps m.roots ⟨m, fun _ => 0⟩ hg hmem
+  refine ⟨m, h, g, ⟨g.inv, g.order, g.exact, Or.inl g.ctx, ?_⟩, ht, hro, hsc.trans hsch, hpos⟩
+  intro r hr
+  rw [hro] at hr
+  exact hpos r hr
+
+example : ∃ m, loadDddmp dddmpChain = .ok m ∧
+    ReorderInv (run (holdOps m.roots) ⟨m, fun _ => 0⟩).ext (run (holdOps m.roots) ⟨m, fun _ => 0⟩).m := by
+  obtain ⟨m, h, -, hr, -⟩ := C16_hold_roots dddmpChain dddmpChain_wf
+  exact ⟨m, h, hr⟩
+
+/-! ### the file's semantics read off the format: one composed statement per mode
+
+`evalFormat f α x` evaluates the node list with the DDDMP reading rule `dddmpNameOf` (header
+LINES only: `.varinfo`, `.ids`, `.permids`, `.orderedvarnames`, `.suppvarnames`); none of
+the loader's tables enters.  Hypotheses: `f.WF` (the file is accepted and its node list is
+consistent), `DddmpHeaderOK f` (the header entries that identify variables are distinct),
+and the mode.  Every statement includes complemented else-edges (a negative else-column) and
+signed root entries (`DddmpShannon.sign`). -/
+
+/-- C16 (format semantics, every mode with names): the roots of the loaded manager denote, by
+variable NAME, exactly the root entries of the file evaluated by the DDDMP rule; that
+evaluation obeys the Shannon rule on every listed line; the manager is a good state -/
+theorem C16_format (f : DddmpFile) (hf : f.WF) (hH : DddmpHeaderOK f) (hn : f.named = true) :
+    ∃ m, loadDddmp f = .ok m ∧ GoodState m (fun _ => 0) ∧
+      DddmpRootsDenoteBy (evalFormat f) f m ∧
+      DddmpShannon f (fun info var => dddmpNameOf f info = some var) (evalFormat f) ∧
+      ∀ α x, evalFile f α x = evalFormat f α x := by
+  obtain ⟨m, h, hg, -, -, -, -, hr, -⟩ := C16_load_good f hf
+  have e : evalFile f = evalFormat f := by
+    funext α x; exact evalFile_eq_evalFormat hf hH hn α x
+  refine ⟨m, h, hg, ?_, evalFormat_shannon hf hH hn, fun α x => evalFile_eq_evalFormat hf hH hn α x⟩
+  rw [← e]; exact (dddmpRootsDenote_iff f m).mp hr
+
+/-- C16, `.varinfo 3` (labels are names; `.orderedvarnames` lists the writer's variables by
+level): roots = the file's root entries, where the line labelled `var` is a node of the
+variable `var`; the order of the loaded manager is `.orderedvarnames` -/
+theorem C16_varinfo3 (f : DddmpFile) (hf : f.WF) (hH : DddmpHeaderOK f)
+    (hv : f.varinfo = some 3) {ov : List Tok} (ho : f.orderedvarnames = some ov) :
+    ∃ m, loadDddmp f = .ok m ∧ GoodState m (fun _ => 0) ∧
+      DddmpRootsDenoteBy (evalFormat f) f m ∧
+      DddmpShannon f (fun info var => info = var ∧ var ∈ ov) (evalFormat f) ∧
+      m.nvars = ov.length ∧ ∀ (k : Nat) (var : Tok), ov[k]? = some var →
+        m.tbl.vars[var.show]? = some k ∧ m.tbl.l2v[k]? = some var.show := by
+  have hn : f.named = true := by simp [DddmpFile.named, ho]
+  obtain ⟨m, h, hg, -, -, -, -, hr, hL⟩ := C16_load_good f hf
+  obtain ⟨i2p, levels, roots, _, hh, _⟩ := id hf
+  have e : evalFile f = evalFormat f := by
+    funext α x; exact evalFile_eq_evalFormat hf hH hn α x
+  refine ⟨m, h, hg, by rw [← e]; exact (dddmpRootsDenote_iff f m).mp hr,
+    (evalFormat_shannon hf hH hn).reading (dddmpNameOf_varinfo3 hv ho),
+    (hL _ _ _ hh).of_ordered hh hH ho⟩
+
+/-- C16, `.varinfo 0` with `.orderedvarnames`: the line labelled `ids[j]` is a node of the
+variable `orderedvarnames[permids[j]]`; the order of the loaded manager is `.orderedvarnames` -/
+theorem C16_varinfo0_ordered (f : DddmpFile) (hf : f.WF) (hH : DddmpHeaderOK f)
+    (hv : f.varinfo = some 0) {ids permids : List Int} (hi : f.ids = some ids)
+    (hp : f.permids = some permids) {ov : List Tok} (ho : f.orderedvarnames = some ov) :
+    ∃ m, loadDddmp f = .ok m ∧ GoodState m (fun _ => 0) ∧
+      DddmpRootsDenoteBy (evalFormat f) f m ∧
+      DddmpShannon f (fun info var => ∃ (j : Nat) (i : Int) (k : Nat), info = .num i ∧
+        ids[j]? = some i ∧ permids[j]? = some (k : Int) ∧ ov[k]? = some var) (evalFormat f) ∧
+      m.nvars = ov.length ∧ ∀ (k : Nat) (var : Tok), ov[k]? = some var →
+        m.tbl.vars[var.show]? = some k ∧ m.tbl.l2v[k]? = some var.show := by
+  have hn : f.named = true := by simp [DddmpFile.named, ho]
+  have hnd : ids.Nodup := by have := hH.ids hv; rw [hi] at this; exact this
+  obtain ⟨m, h, hg, -, -, -, -, hr, hL⟩ := C16_load_good f hf
+  obtain ⟨i2p, levels, roots, _, hh, _⟩ := id hf
+  have e : evalFile f = evalFormat f := by
+    funext α x; exact evalFile_eq_evalFormat hf hH hn α x
+  refine ⟨m, h, hg, by rw [← e]; exact (dddmpRootsDenote_iff f m).mp hr,
+    (evalFormat_shannon hf hH hn).reading (dddmpNameOf_varinfo0_ordered hv hi hp hnd ho),
+    (hL _ _ _ hh).of_ordered hh hH ho⟩
+
+/-- C16, `.varinfo 1` with `.orderedvarnames`: the line labelled with the level `k` (an entry
+of `.permids`) is a node of the variable `orderedvarnames[k]` -/
+theorem C16_varinfo1_ordered (f : DddmpFile) (hf : f.WF) (hH : DddmpHeaderOK f)
+    (hv : f.varinfo = some 1) {permids : List Int} (hp : f.permids = some permids)
+    {ov : List Tok} (ho : f.orderedvarnames = some ov) :
+    ∃ m, loadDddmp f = .ok m ∧ GoodState m (fun _ => 0) ∧
+      DddmpRootsDenoteBy (evalFormat f) f m ∧
+      DddmpShannon f (fun info var => ∃ k : Nat, info = .num (k : Int) ∧ (k : Int) ∈ permids ∧
+        ov[k]? = some var) (evalFormat f) ∧
+      m.nvars = ov.length ∧ ∀ (k : Nat) (var : Tok), ov[k]? = some var →
+        m.tbl.vars[var.show]? = some k ∧ m.tbl.l2v[k]? = some var.show := by
+  have hn : f.named = true := by simp [DddmpFile.named, ho]
+  have hnd : permids.Nodup := by
+    have := hH.permids (by rw [hv]; decide); rw [hp] at this; exact this
+  obtain ⟨m, h, hg, -, -, -, -, hr, hL⟩ := C16_load_good f hf
+  obtain ⟨i2p, levels, roots, _, hh, _⟩ := id hf
+  have e : evalFile f = evalFormat f := by
+    funext α x; exact evalFile_eq_evalFormat hf hH hn α x
+  refine ⟨m, h, hg, by rw [← e]; exact (dddmpRootsDenote_iff f m).mp hr,
+    (evalFormat_shannon hf hH hn).reading (dddmpNameOf_varinfo1_ordered hv hp hnd ho),
+    (hL _ _ _ hh).of_ordered hh hH ho⟩
+
+/-- C16, `.varinfo 0` without `.orderedvarnames`: the line labelled `ids[j]` is a node of the
+variable `suppvarnames[j]`; `suppvarnames[j]` gets the rank of `permids[j]` as its level -/
+theorem C16_varinfo0_supp (f : DddmpFile) (hf : f.WF) (hH : DddmpHeaderOK f)
+    (hv : f.varinfo = some 0) (ho : f.orderedvarnames = none) {ids permids : List Int}
+    (hi : f.ids = some ids) (hp : f.permids = some permids) {sv : List Tok}
+    (hs : f.suppvarnames = some sv) :
+    ∃ m, loadDddmp f = .ok m ∧ GoodState m (fun _ => 0) ∧
+      DddmpRootsDenoteBy (evalFormat f) f m ∧
+      DddmpShannon f (fun info var => ∃ (j : Nat) (i : Int), info = .num i ∧ ids[j]? = some i ∧
+        sv[j]? = some var) (evalFormat f) ∧
+      m.nvars = permids.length ∧
+      ∀ (j : Nat) (var : Tok) (k : Int), sv[j]? = some var → permids[j]? = some k →
+        ∃ i : Nat, (sortInts permids)[i]? = some k ∧ m.tbl.vars[var.show]? = some i ∧
+          m.tbl.l2v[i]? = some var.show := by
+  have hn : f.named = true := by simp [DddmpFile.named, hs]
+  have hnd : ids.Nodup := by have := hH.ids hv; rw [hi] at this; exact this
+  obtain ⟨m, h, hg, -, -, -, -, hr, hL⟩ := C16_load_good f hf
+  obtain ⟨i2p, levels, roots, _, hh, _⟩ := id hf
+  have e : evalFile f = evalFormat f := by
+    funext α x; exact evalFile_eq_evalFormat hf hH hn α x
+  refine ⟨m, h, hg, by rw [← e]; exact (dddmpRootsDenote_iff f m).mp hr,
+    (evalFormat_shannon hf hH hn).reading (dddmpNameOf_varinfo0_supp hv hi hnd ho hs),
+    (hL _ _ _ hh).of_supp hh hH (by rw [hv]; decide) ho hs hp⟩
+
+/-- C16, `.varinfo 1` without `.orderedvarnames`: the line labelled `permids[j]` is a node of
+the variable `suppvarnames[j]`; `suppvarnames[j]` gets the rank of `permids[j]` as its level -/
+theorem C16_varinfo1_supp (f : DddmpFile) (hf : f.WF) (hH : DddmpHeaderOK f)
+    (hv : f.varinfo = some 1) (ho : f.orderedvarnames = none) {permids : List Int}
+    (hp : f.permids = some permids) {sv : List Tok} (hs : f.suppvarnames = some sv) :
+    ∃ m, loadDddmp f = .ok m ∧ GoodState m (fun _ => 0) ∧
+      DddmpRootsDenoteBy (evalFormat f) f m ∧
+      DddmpShannon f (fun info var => ∃ (j : Nat) (k : Int), info = .num k ∧
+        permids[j]? = some k ∧ sv[j]? = some var) (evalFormat f) ∧
+      m.nvars = permids.length ∧
+      ∀ (j : Nat) (var : Tok) (k : Int), sv[j]? = some var → permids[j]? = some k →
+        ∃ i : Nat, (sortInts permids)[i]? = some k ∧ m.tbl.vars[var.show]? = some i ∧
+          m.tbl.l2v[i]? = some var.show := by
+  have hn : f.named = true := by simp [DddmpFile.named, hs]
+  have hnd : permids.Nodup := by
+    have := hH.permids (by rw [hv]; decide); rw [hp] at this; exact this
+  obtain ⟨m, h, hg, -, -, -, -, hr, hL⟩ := C16_load_good f hf
+  obtain ⟨i2p, levels, roots, _, hh, _⟩ := id hf
+  have e : evalFile f = evalFormat f := by
+    funext α x; exact evalFile_eq_evalFormat hf hH hn α x
+  refine ⟨m, h, hg, by rw [← e]; exact (dddmpRootsDenote_iff f m).mp hr,
+    (evalFormat_shannon hf hH hn).reading (dddmpNameOf_varinfo1_supp hv hp hnd ho hs),
+    (hL _ _ _ hh).of_supp hh hH (by rw [hv]; decide) ho hs hp⟩
+
+/-! non-vacuity of the five mode theorems: each example file meets the hypotheses, and on it
+the reading of the format names `z`, `x`, `y` for the three lines -/
+
+example : dddmpEx3.WF ∧ DddmpHeaderOK dddmpEx3 ∧ dddmpEx3.varinfo = some 3 := by decide
+example : dddmpEx0o.WF ∧ DddmpHeaderOK dddmpEx0o ∧ dddmpEx0o.varinfo = some 0 := by decide
+example : dddmpEx1o.WF ∧ DddmpHeaderOK dddmpEx1o ∧ dddmpEx1o.varinfo = some 1 := by decide
+example : dddmpChain.WF ∧ DddmpHeaderOK dddmpChain ∧ dddmpChain.varinfo = some 0 ∧
+    dddmpChain.orderedvarnames = none := by decide
+example : dddmpEx1s.WF ∧ DddmpHeaderOK dddmpEx1s ∧ dddmpEx1s.varinfo = some 1 ∧
+    dddmpEx1s.orderedvarnames = none := by decide
+
+example : [dddmpChain, dddmpEx1s, dddmpEx0o, dddmpEx1o, dddmpEx3].map
+      (fun f => f.nodes.map fun n => dddmpNameOf f n.info) =
+    List.replicate 5 [some (.str "z"), none, some (.str "x"), some (.str "y")] := by decide
+
+/-- on the `.varinfo 0` example: the loaded roots denote `if z then x ∨ ¬y else y` and
+`¬(x ∨ ¬y)`, for every assignment of the names (the composed statement, instantiated; the
+right-hand sides are evaluated on all 8 assignments of `x, y, z`) -/
+example : ∃ m, loadDddmp dddmpChain = .ok m ∧ GoodState m (fun _ => 0) ∧
+    (∃ r ∈ m.roots, ∀ α, den m.tbl r (asgOf m.tbl α) = evalFormat dddmpChain α 2) ∧
+    (∃ r ∈ m.roots, ∀ α, den m.tbl r (asgOf m.tbl α) = evalFormat dddmpChain α (-4)) ∧
+    ∀ x y z : Bool,
+      evalFormat dddmpChain (fun s => if s = "x" then x else if s = "y" then y else z) 2 =
+        (if z then (x || !y) else y) ∧
+      evalFormat dddmpChain (fun s => if s = "x" then x else if s = "y" then y else z) (-4) =
+        !(x || !y) := by
+  obtain ⟨m, h, hg, hr, -, -, -⟩ := C16_varinfo0_supp dddmpChain dddmpChain_wf dddmpChain_headerOK
+    rfl rfl (ids := [4, 7, 1]) rfl (permids := [2, 5, 0]) rfl
+    (sv := [.str "x", .str "y", .str "z"]) rfl
+  refine ⟨m, h, hg, ?_, ?_, by decide⟩
+  · obtain ⟨r, hrm, -, hd⟩ := hr.1 2 (by decide)
+    exact ⟨r, hrm, hd⟩
+  · obtain ⟨r, hrm, -, hd⟩ := hr.1 (-4) (by decide)
+    exact ⟨r, hrm, hd⟩
+
+/-- the accepted modes are exactly these: a well-formed file has `.varinfo` 0, 1 or 3, and
+`.varinfo 3` needs `.orderedvarnames` -/
+theorem C16_modes (f : DddmpFile) (hf : f.WF) :
+    f.varinfo = some 0 ∨ f.varinfo = some 1 ∨
+      (f.varinfo = some 3 ∧ ∃ ov, f.orderedvarnames = some ov) := by
+  obtain ⟨i2p, levels, roots, _, hh, _⟩ := hf
+  obtain ⟨ids, permids, _, _, _, _, hI, _, _⟩ := dddmpHeader_inv hh
+  obtain ⟨t, _, ht, _, _⟩ := dddmpInfo2permid_inv hI
+  unfold dddmpInfoTable at ht
+  split at ht
+  · next hv => exact Or.inl hv
+  · next hv => exact Or.inr (Or.inl hv)
+  · cases ht
+  · next hv =>
+    split at ht
+    · cases ht
+    · next ov ho => exact Or.inr (Or.inr ⟨hv, ov, ho⟩)
+  · cases ht
+  · cases ht
 
 /-- the assignment `a = true, b = false` -/
 def dddmpWitnessAsg : String → Bool := fun s => s == "a"
